@@ -601,7 +601,7 @@ func (g *sgroup) intSites(gk gkind, sel *selector, emit func(Case)) {
 		ss.constForms = false
 		for _, c := range cmpOps {
 			for _, s := range shapeNames {
-				ss.ops = append(ss.ops, siteOp{name: c + " " + s, expr: shape(s, "$a "+opSym[c]+" $b", "$q"), rt: "bool",
+				ss.ops = append(ss.ops, siteOp{name: c + " " + s, expr: shape(s, "($a "+opSym[c]+" $b)", "$q"), rt: "bool",
 					res: bcol(c, s), bool_: true})
 			}
 		}
@@ -734,7 +734,7 @@ func (g *sgroup) floatSites(sel *selector, emit func(Case)) {
 		ss.vb, ss.cb = fv(g.VB)
 		for _, c := range cmpOps {
 			for _, s := range shapeNames {
-				ss.ops = append(ss.ops, siteOp{name: c + " " + s, expr: shape(s, "$a "+opSym[c]+" $b", "$q"), rt: "bool",
+				ss.ops = append(ss.ops, siteOp{name: c + " " + s, expr: shape(s, "($a "+opSym[c]+" $b)", "$q"), rt: "bool",
 					res: bcol(c, s), bool_: true})
 			}
 		}
